@@ -1,6 +1,7 @@
 package main
 
 import (
+	"bytes"
 	"fmt"
 
 	"layeh.com/radius"
@@ -38,6 +39,22 @@ func tAfter(t *Toks, a radius.Attributes) {
 	}
 }
 
+// shareValues: Add and Set receive, instead of a private copy, the stored slice of an attribute that already holds the
+// same bytes (what a caller does who writes p.Add(t2, p.Get(t1))): the values are equal either way, so the expected
+// outcome is the same, unless an operation writes into a stored value in place
+var shareValues bool
+
+func argValue(a radius.Attributes, v []byte) []byte {
+	if shareValues && len(v) > 0 {
+		for _, avp := range a {
+			if avp != nil && bytes.Equal(avp.Attribute, v) {
+				return avp.Attribute
+			}
+		}
+	}
+	return append([]byte(nil), v...)
+}
+
 func runAttrOps(start []aop, ops []aop) (Req, *Toks) {
 	var a radius.Attributes
 	req := Req{Name: "attrs_run"}
@@ -53,9 +70,9 @@ func runAttrOps(start []aop, ops []aop) (Req, *Toks) {
 		req.Bs = append(req.Bs, o.v)
 		switch o.c {
 		case 0:
-			a.Add(radius.Type(o.k), append([]byte(nil), o.v...))
+			a.Add(radius.Type(o.k), argValue(a, o.v))
 		case 1:
-			a.Set(radius.Type(o.k), append([]byte(nil), o.v...))
+			a.Set(radius.Type(o.k), argValue(a, o.v))
 		case 2:
 			a.Del(radius.Type(o.k))
 		case 3:
@@ -141,6 +158,22 @@ func init() {
 			req, impl := runAttrOps(start, ops)
 			c.Add(T(req, impl, tagOps(start, ops)))
 		}
+		// values shared between attributes: a small pool of equal-length values, every Add/Set handing over the stored
+		// slice of an attribute that already holds those bytes
+		shareValues = true
+		for i := 0; i < c.N(600, 8000); i++ {
+			pool := [][]byte{r.Bytes(2), r.Bytes(2), r.Bytes(2), r.Bytes(5), r.Bytes(5)}
+			var start, ops []aop
+			for j := 0; j < 1+r.Intn(5); j++ {
+				start = append(start, aop{0, r.Pick(1, 2, 3, 26), pool[r.Intn(len(pool))]})
+			}
+			for j := 0; j < 2+r.Intn(8); j++ {
+				ops = append(ops, aop{r.Pick(0, 0, 1, 1, 1, 2, 3, 4), r.Pick(1, 2, 3, 26), pool[r.Intn(len(pool))]})
+			}
+			req, impl := runAttrOps(start, ops)
+			c.Add(T(req, impl, "shared-values"))
+		}
+		shareValues = false
 		// long lists (the loops' behaviour must not depend on how long the slice or its backing array is):
 		// one key dominating 60..95% of 65..600 entries, removed or replaced in one call
 		for i := 0; i < c.N(40, 600); i++ {
@@ -194,7 +227,7 @@ func init() {
 		}
 		c.Trivial("reads-only", "no-hit")
 		c.Flush()
-		c.RequireTags("long-list", "extreme-count", "set-present", "del-present", "set-multi", "del-multi", "reads-only", "no-hit")
+		c.RequireTags("long-list", "extreme-count", "shared-values", "set-present", "del-present", "set-multi", "del-multi", "reads-only", "no-hit")
 	}
 }
 
